@@ -163,7 +163,21 @@ pub fn run(ctx: &Ctx) -> i32 {
     }
     let accs = par_fold(n, |i, acc: &mut Acc| {
         let t = sp.unrank(i);
-        let m = build(&wall_seqs[t[0]], &win_seqs[t[1]], &tb_seqs[t[2]], t[3] == 1);
+        let mut m = build(&wall_seqs[t[0]], &win_seqs[t[1]], &tb_seqs[t[2]], t[3] == 1);
+        if i % 5 == 2 {
+            // every fifth model: long names of 2-, 3- and 4-byte letters starting at different byte offsets (a warning
+            // that quotes a name quotes it whole, or cuts it between letters)
+            let wide = |k: usize| -> String { format!("{}{}", "a".repeat(k % 4), [("ó", 24usize), ("€", 16), ("𝄞", 12), ("ñ", 30)][k % 4].0.repeat([24usize, 16, 12, 30][k % 4])) };
+            for (k, w) in m.walls.iter_mut().enumerate() {
+                w.name = wide(k);
+            }
+            for (k, w) in m.windows.iter_mut().enumerate() {
+                w.name = wide(k + 2);
+            }
+            for (k, w) in m.thermal_bridges.iter_mut().enumerate() {
+                w.name = wide(k + 1);
+            }
+        }
         ctx.eval(1);
         let case = || json!({"walls(space+3*cons+9*next_to)": wall_seqs[t[0]], "windows(wall+3*cons)": win_seqs[t[1]], "bridge_len_idx": tb_seqs[t[2]], "nil_space": t[3] == 1, "model": serde_json::to_value(&m).unwrap()});
         if i % (n / 3 + 1) == n / 7 {
@@ -171,7 +185,13 @@ pub fn run(ctx: &Ctx) -> i32 {
         }
         let exp = expected(&m);
         let before = if i % 97 == 0 { Some(m.as_json().unwrap()) } else { None };
-        let ws = check(&m);
+        let ws = match catch(std::panic::AssertUnwindSafe(|| check(&m))) {
+            Ok(ws) => ws,
+            Err(p) => {
+                ctx.violation(&format!("check:panic:{}", panic_key(&p)), &format!("the checker panics instead of reporting: {}", p), case());
+                return;
+            }
+        };
         let mut got: BTreeMap<Uuid, usize> = BTreeMap::new();
         let mut noid = 0;
         for w in &ws {
@@ -257,7 +277,14 @@ pub fn run(ctx: &Ctx) -> i32 {
                 let _ = check(&q);
                 f(&mut q);
                 let mut got2: BTreeMap<Uuid, usize> = BTreeMap::new();
-                for w in check(&q) {
+                let ws2 = match catch(std::panic::AssertUnwindSafe(|| check(&q))) {
+                    Ok(w) => w,
+                    Err(p) => {
+                        ctx.violation(&format!("check:panic:{}", panic_key(&p)), &format!("the checker panics instead of reporting (after '{}'): {}", what, p), json!({"case": case(), "history": ["check", what, "check"]}));
+                        continue;
+                    }
+                };
+                for w in ws2 {
                     if let Some(id) = w.id {
                         *got2.entry(id).or_default() += 1;
                     }
@@ -268,7 +295,13 @@ pub fn run(ctx: &Ctx) -> i32 {
                 }
             }
             // indicators' warnings are the checker's (sub-product)
-            let ind = m.energy_indicators();
+            let ind = match catch(std::panic::AssertUnwindSafe(|| m.energy_indicators())) {
+                Ok(i) => i,
+                Err(p) => {
+                    ctx.violation(&format!("indicators:panic:{}", panic_key(&p)), &format!("computing the indicators of a model the checker accepts panics: {}", p), case());
+                    return;
+                }
+            };
             let a: Vec<_> = ind.warnings.iter().map(|w| (w.level, w.id, w.msg.clone())).collect();
             let b: Vec<_> = ws.iter().map(|w| (w.level, w.id, w.msg.clone())).collect();
             if a != b {
@@ -294,7 +327,7 @@ pub fn run(ctx: &Ctx) -> i32 {
     }
     ctx.finish(
         "model_checking",
-        &format!("full product (an 'absent' id is an id of another collection for the first element of a kind, a present id with its leading hex digit changed for the second, a fresh id from the third on): 0..2 walls x (space{{ok,absent,nil}} x cons{{ok,absent,nil}} x next_to{{None,ok,absent,nil}}, the boundary kind cycling through INTERIOR/EXTERIOR/ADIABATIC/GROUND so that every (next_to option, kind) pair occurs) x 0..{} windows x (wall{{ok,absent,nil}} x cons{{ok,absent}}) x 0..{} bridges x l{{-1,-0.0,0,2,-0.004,-1e-30}} x {{no space with nil id, one}}; user U / obstruction overrides on some of the walls and windows; oracle = number of broken links per element id (reference: set membership, l<0), compared with the number of warnings carrying that id; every 97th model also: JSON unchanged by check(), the histories check -> {{remove last space, remove first construction, add a space and move a wall into it, remove first wall}} -> check on a clone of the checked model, energy_indicators().warnings == check(); + 7 shipped models; non-trivial = at least one broken link expected", 2, ctx.tier.pick(1, 2)),
+        &format!("full product (an 'absent' id is an id of another collection for the first element of a kind, a present id with its leading hex digit changed for the second, a fresh id from the third on): 0..2 walls x (space{{ok,absent,nil}} x cons{{ok,absent,nil}} x next_to{{None,ok,absent,nil}}, the boundary kind cycling through INTERIOR/EXTERIOR/ADIABATIC/GROUND so that every (next_to option, kind) pair occurs) x 0..{} windows x (wall{{ok,absent,nil}} x cons{{ok,absent}}) x 0..{} bridges x l{{-1,-0.0,0,2,-0.004,-1e-30}} x {{no space with nil id, one}}; user U / obstruction overrides on some of the walls and windows; every fifth model with long names of multi-byte letters at different byte offsets; oracle = number of broken links per element id (reference: set membership, l<0), compared with the number of warnings carrying that id; every 97th model also: JSON unchanged by check(), the histories check -> {{remove last space, remove first construction, add a space and move a wall into it, remove first wall}} -> check on a clone of the checked model, energy_indicators().warnings == check(); + 7 shipped models; non-trivial = at least one broken link expected", 2, ctx.tier.pick(1, 2)),
         true,
         json!({"space_size": n}),
     )
